@@ -209,4 +209,38 @@ theorem C12_blocks_stop_at_oversize (H : HashTable) (pre : List Block) (l : Nat)
       simp only
       rw [ih n (fun x hx => hpre x (by simp [hx])) (by simp at hf; omega)]
 
+/-! ## a zero-length section is an error, not the end of the archive -/
+
+theorem readStd_zero (rest : Bytes) : Varint.readStd (0 :: rest) = .ok (0, rest) := by
+  simp [Varint.readStd, Varint.readStdAux]
+
+theorem parseCid_nil : parseCid [] = none := by
+  simp [parseCid, Varint.readMf, Varint.readMfAux]
+
+/-- **C12 (no silent end).** A `0x00` where a section should start — a length byte zeroed, zero padding
+spliced between sections — is a section of no bytes, which holds no CID: an error, whatever follows. -/
+theorem C12_zero_section_is_error (H : HashTable) (rest : Bytes) : next H (0 :: rest) = some (.err, rest) := by
+  unfold next
+  simp only [List.isEmpty_cons, Bool.false_eq_true, if_false, readStd_zero]
+  simp [maxAlloc, takeExact, parseCid_nil]
+
+/-- … so an archive with a zero byte at a section boundary is never read as the shorter archive that
+ends there: the blocks before it are delivered and the iteration ends **with an error** -/
+theorem C12_blocks_stop_at_zero (H : HashTable) (pre : List Block) (rest : Bytes) (fuel : Nat)
+    (hpre : ∀ x ∈ pre, WfBlock H x) (hf : pre.length < fuel) :
+    blocks H fuel (pre.flatMap sectionOf ++ (0 :: rest)) = (pre, true) := by
+  induction pre generalizing fuel with
+  | nil =>
+    cases fuel with
+    | zero => omega
+    | succ n => simp [blocks, C12_zero_section_is_error H rest]
+  | cons p ps ih =>
+    cases fuel with
+    | zero => omega
+    | succ n =>
+      simp only [List.flatMap_cons, List.append_assoc, blocks]
+      rw [next_section H p _ (hpre p (by simp))]
+      simp only
+      rw [ih n (fun x hx => hpre x (by simp [hx])) (by simp at hf; omega)]
+
 end Car
